@@ -79,38 +79,14 @@ def run(ctx):
                 for hb in local_callee_bodies(F, c):
                     if hb.crate == BG and hb.def_ != ib.def_ and any(is_inc(x) for x in hb.calls()):
                         incs += [(hb, x, c.bb) for x in hb.calls() if is_inc(x)]
-            # ... or be deferred: the displacement bumps an atomic tally of the queue, and whoever reports it to the recorder empties the
-            # tally in the same atomic step (`swap(0)`, or `fetch_sub` of exactly the amount that was loaded and reported)
-            deferred = []
-            if not incs:
-                ipr = Prov(ib)
-                for c in ib.calls():
-                    if c.name == "fetch_add" and "sync::atomic::Atomic" in (c.def_ or "") and c.args:
-                        fo = _ref_field(ib, c.args[0])
-                        if fo:
-                            deferred.append((c, fo))
-                for c, fld in deferred:
-                    incs.append((ib, c, c.bb))
-                    drains, stores, reports = [], [], []
-                    for rb in F.all_bodies(BG):
-                        if not in_bg(F, rb):
-                            continue
-                        rpr = None
-                        for x in rb.calls():
-                            if "sync::atomic::Atomic" in (x.def_ or "") and x.args and x.name in ("swap", "store", "fetch_sub", "fetch_and", "fetch_min", "compare_exchange", "fetch_update"):
-                                rpr = rpr or Prov(rb)
-                                if _ref_field(rb, x.args[0]) == fld:
-                                    (drains if x.name == "swap" else stores).append((rb, x))
-                            if is_inc(x):
-                                rpr = rpr or Prov(rb)
-                                reports.append((rb, x, rpr.operand(x.args[-1])))
-                    swapped = [(rb, x) for rb, x in drains if any(r_b is rb and ("call", x.bb) in o and not any(y[0] == "op" for y in o) for r_b, _, o in reports)]
-                    ctx.check(bool(swapped) and not stores, "R09.3", fnkey(ib) + "#deferred-overflow-tally-drained-atomically", loc(*( (stores[0][0], stores[0][1].bb) if stores else (ib, c.bb))),
-                              "the displacement is tallied in the atomic `%s` and reported later, but the tally is not emptied in the same atomic step as it is read "
-                              "(%s): entries displaced between the read and the reset are counted by nobody, so the reported overflow count falls short of "
-                              "the entries discarded" % (fld, "reset by `%s` in %s" % (stores[0][1].name, stores[0][0].name) if stores else "no `swap` whose result is the reported amount"),
-                              "tally `%s` drained by swap; the swapped value is the reported amount" % fld)
-            ctx.check(len(incs) >= 1, "R09.3", fnkey(ib) + "#overflow-counter-present", loc(ib), "no metrique_queue_overflows counter increment next to the ring insertion")
+            # a tally kept at the insertion and handed to the recorder later by the writer thread is not a substitute: the property holds
+            # for every amount of writer progress, a completely stalled (or dead) writer included, and then the recorder never sees the
+            # discarded entries. (Noted only to say so in the report.)
+            deferred = [c for c in ib.calls() if c.name in ("fetch_add",) and "sync::atomic::Atomic" in (c.def_ or "")] if not incs else []
+            ctx.check(len(incs) >= 1, "R09.3", fnkey(ib) + "#overflow-counter-present", loc(ib),
+                      "no metrique_queue_overflows counter increment next to the ring insertion%s: the discarded entry must be reported to the recorder where "
+                      "it is discarded - reported later by the writer thread it is not counted while the writer is stalled, and never if the writer is gone" % (
+                          " (the displacement is only tallied in an atomic)" if deferred else ""))
 
             def guard_scan(body, at_bb, ins_cs):
                 """switches that decide whether block at_bb of `body` runs: (depends on the displaced value?, extra guards, some-side ok?)"""
